@@ -258,7 +258,7 @@ func buildWorker(dir string, instr, race bool) (string, error) {
 		if err != nil {
 			return "", err
 		}
-		mod := strings.Replace(string(src), "=> "+repoDir, "=> "+copyDir, 1)
+		mod := strings.Replace(string(src), "=> /repo", "=> "+copyDir, 1)
 		if err := os.WriteFile(modfile, []byte(mod), 0o644); err != nil {
 			return "", err
 		}
